@@ -186,6 +186,13 @@ class World:
                 if nd.taxon is not None and nd.taxon not in t.taxon_namespace:
                     v.append(["removed-tree-taxon", k])
                     break
+        # (not part of the property, but what every later append relies on:) every tree object the history
+        # has made, in a list or not, carries only taxa of the namespace it refers to
+        for k, t in enumerate(self.trees):
+            for nd in t:
+                if nd.taxon is not None and nd.taxon not in t.taxon_namespace:
+                    v.append(["tree-taxon", k])
+                    break
         return v
 
     # -- op execution -------------------------------------------------------------------------
@@ -465,9 +472,9 @@ def gen_case(rng, maxlen, hazard=0.12):
     if R() < 0.6:
         emit(["NewDs"])
 
-    target = rng.randint(4, maxlen)
+    target = len(ops) + rng.randint(5, maxlen)
     guard = 0
-    while len(ops) < target + 8 and guard < 200:
+    while len(ops) < target and guard < 300:
         guard += 1
         op = _pick(rng, w, hazard)
         if op is None:
@@ -615,6 +622,10 @@ def _pick(rng, w, hazard):
             return ["UpdateTree", t]
         if j < 0.9:
             n = w._ix["ns"][id(tr.taxon_namespace)] if R() < 0.7 else NS()
+            if not any(nd.taxon is not None for nd in tr):
+                # (cloning a taxon-less one-node tree after encode_bipartitions raises AssertionError
+                #  "Bipartition is mutable" in the library: unrelated to this property, avoided)
+                return None
             return ["ArrayAdd", n, t]
         users = sum(1 for x in w.trees if x.taxon_namespace is tr.taxon_namespace) \
             + sum(1 for x in w.mats if x.taxon_namespace is tr.taxon_namespace)
@@ -741,20 +752,28 @@ def _classify(case, step, op, viol, prev_dump, dump, out):
     """a stable, narrow key for a new violation of the closure property"""
     kind = viol[0]
     name = op[0]
-    if out == ["ORecon"] and kind in ("matrix-row",):
-        return "matrix-half-migrated-after-reconstruction-error:" + name
+    if out == ["ORecon"] and kind == "matrix-row":
+        return "matrix-half-migrated-after-reconstruction-error"
     if kind in ("ds-list-ns", "ds-matrix-ns"):
-        return "attached-dataset-foreign-component:" + name
-    if name.startswith("Purge"):
-        return "purge-removes-taxa-used-by-other-holders:" + name
-    if kind in ("list-member-ns", "list-member-taxon"):
+        if name in ("DsAdd", "Attach"):
+            return "attached-dataset-foreign-component"
+        if name in ("MigrateList", "MigrateMat"):
+            return "attached-dataset-component-migrated-away"
+        if name == "Unify" and not op[3]:
+            return "unify-without-attach-leaves-stale-attached-namespace"
+    if name.startswith("Purge") and kind in ("list-member-taxon", "matrix-row", "removed-tree-taxon", "tree-taxon"):
+        return "purge-removes-taxa-used-by-other-holders"
+    if kind in ("list-member-ns", "list-member-taxon") and prev_dump is not None:
         li = viol[1]
         tr = dump["lists"][li][1][viol[2]]
-        moved = prev_dump is not None and tr < len(prev_dump["trees"]) and prev_dump["trees"][tr][0] != dump["trees"][tr][0]
-        target = op[1] if name not in ("MigrateTree",) else None
+        moved = tr < len(prev_dump["trees"]) and prev_dump["trees"][tr][0] != dump["trees"][tr][0]
+        target = op[1] if (name in MOVERS or name == "MigrateList") else None
         if moved and li != target and li < len(prev_dump["lists"]) and tr in prev_dump["lists"][li][1]:
             # the step re-homed a tree object that list `li` was (and is) holding
-            return "tree-held-by-another-list-migrated-in-place:" + name
+            if name in MOVERS:
+                return "shared-tree-rehomed-by-list-operation"
+            if name in ("MigrateList", "MigrateTree", "Unify"):
+                return "shared-tree-rehomed-by-migration"
     return "unexplained:%s:%s" % (kind, name)
 
 
@@ -802,6 +821,8 @@ def _describe(v):
         return "matrix %d of data set %d does not refer to the attached namespace" % (v[2], v[1])
     if k == "removed-tree-taxon":
         return "removed tree #%d carries a taxon that is not in its own namespace" % v[1]
+    if k == "tree-taxon":
+        return "tree object %d carries a taxon that is not in the namespace it refers to" % v[1]
     return str(v)
 
 
@@ -990,14 +1011,96 @@ def nontrivial(case, obs):
 # fixed cases: the call sites named in the property text, incl. the reported findings
 # ----------------------------------------------------------------------------------------------
 
+P6 = ["A", "B", "C", "a", "b", "c"]
+EX_BASE = [["NewNs", False], ["NewNs", False], ["NewNs", True],
+           ["NewTaxon", 0, 0], ["NewTaxon", 0, 1], ["NewTaxon", 1, 3], ["NewTaxon", 1, 2],
+           ["NewTaxon", 2, 0], ["NewTaxon", 2, 3],
+           ["NewList", 0], ["NewList", 1], ["NewList", 2],
+           ["MkTree", 0, [0, 1]], ["MkTree", 1, [2, 3]], ["MkTree", 2, [4, 5]], ["MkTree", 2, [5, 4, 4]]]
+M1 = ["SMigrate", True]
+
+# the witnesses of the `_refuted` theorems and the non-vacuity history of coq/Proofs/C11Examples.v:
+# (lemma name, prefix after ex_base, last op, oracle key expected on the implementation | None)
+WITNESSES = [
+    ("append_shared_tree_refuted_l", [["Append", 1, 1, M1]], ["Append", 0, 1, M1], "shared-tree-rehomed-by-list-operation"),
+    ("migrate_slice_refuted_l", [["Append", 1, 1, M1], ["GetSlice", 1, None, None]], ["MigrateList", 3, 0, True],
+     "shared-tree-rehomed-by-migration"),
+    ("dataset_add_foreign_refuted_l", [["NewDs"], ["Attach", 0, 0]], ["DsAdd", 0, ["ObjList", 1], False],
+     "attached-dataset-foreign-component"),
+    ("dataset_attach_foreign_refuted_l", [["NewDs"], ["DsAdd", 0, ["ObjList", 1], False]], ["Attach", 0, 0],
+     "attached-dataset-foreign-component"),
+    ("purge_shared_namespace_refuted_l", [["Append", 0, 0, M1], ["NewList", 0], ["Append", 3, 1, M1]], ["PurgeList", 0],
+     "purge-removes-taxa-used-by-other-holders"),
+    ("matrix_reconstruction_error_refuted_l", [["NewMat", 2], ["NewSeq", 0, 4], ["NewSeq", 0, 5]], ["MigrateMat", 0, 0, True],
+     "matrix-half-migrated-after-reconstruction-error"),
+    ("unify_reconstruction_error_refuted_l",
+     [["NewMat", 2], ["NewSeq", 0, 4], ["NewSeq", 0, 5], ["NewDs"], ["DsAdd", 0, ["ObjMat", 0], False], ["DsAdd", 0, ["ObjList", 0], False]],
+     ["Unify", 0, None, True], "matrix-half-migrated-after-reconstruction-error"),
+]
+
+EX_HISTORY = [
+    ["Append", 0, 1, M1], ["Append", 0, 2, ["SAdd"]], ["Insert", 0, -1, 3, ["SMigrate", False]],
+    ["ReadList", 1, "Newick", False, None, [[0, 4], [5, 1]], 5], ["ReadList", 2, "Nexus", True, None, [[0, 3, 1]], 2],
+    ["Extend", 1, ["SrcList", 0]], ["IAdd", 2, ["SrcTrees", [0]]], ["Add", 0, ["SrcList", 2]], ["GetSlice", 3, 1, None],
+    ["SetSlice", 1, 0, 1, ["SrcList", 2]], ["MkTree", 1, [2, 3]], ["SetItem", 1, -1, 9],
+    ["NewTreeIn", 0, None, [2, 5]], ["Pop", 1, 0], ["Remove", 0, 1], ["MigrateTree", 4, 2, True],
+    ["ReconstructList", 0, True], ["UpdateList", 2], ["MigrateList", 2, 1, True],
+    ["NewMat", 0], ["NewSeq", 0, 0], ["SetRow", 0, ["KeyLabel", 4]], ["MigrateMat", 0, 1, True], ["UpdateMat", 0],
+    ["NewDs"], ["DsAdd", 0, ["ObjList", 1], False], ["DsAdd", 0, ["ObjMat", 0], True], ["DsReadTrees", 0, "Newick", False, None, [[0, 1]], 1],
+    ["DsReadFasta", 0, None, [3, 1]], ["Unify", 0, None, True], ["DsNewList", 0, None], ["DsReadTrees", 0, "Nexus", False, None, [[2, 0]], 3],
+    ["ArrayAdd", 1, 4], ["ArrayAdd", 2, 4], ["NewNs", False], ["NewTaxon", 6, 1], ["NewTaxon", 6, 2], ["MkTree", 6, [17]], ["PurgeTree", 21],
+    ["Detach", 0], ["DsNewMat", 0, 6], ["NewDs"], ["Attach", 1, 6], ["DsNewMat", 1, None], ["DsNewList", 1, 6], ["Detach", 1],
+]
+
+
+def _norm(text):
+    return "".join(ch for ch in text if ch not in "() \n\t")
+
+
+def check_witnesses(ctx):
+    """The witnesses used in Proofs/C11Examples.v are the histories this harness replays on the library."""
+    import os
+    import re
+    src = open(os.path.join(core.COQ, "Proofs", "C11Examples.v")).read()
+    src = core.strip_coq_comments(src)
+    ok = True
+
+    def ops_text(ops):
+        return _norm(clist([c_op(o) for o in ops]))
+
+    m = re.search(r"Definition ex_base : list op :=(.*?)\.\s*\n", src, re.S)
+    ok &= bool(m) and _norm(m.group(1)) == ops_text(EX_BASE)
+    m = re.search(r"Definition ex_history : list op :=(.*?)\.\s*\n", src, re.S)
+    ok &= bool(m) and _norm(m.group(1)) == ops_text(EX_HISTORY)
+    for name, prefix, last, _key in WITNESSES:
+        m = re.search(r"Lemma %s :\s*let st := ex_state (\[.*?\]) in\s*let o := (.*?) in" % name, src, re.S)
+        good = bool(m) and _norm(m.group(1)) == ops_text(prefix) and _norm(m.group(2)) == _norm(c_op(last))
+        if not good:
+            ctx.notes.append("witness %s of Proofs/C11Examples.v differs from the harness' copy" % name)
+        ok &= good
+    ctx.obligation("witness histories of Proofs/C11Examples.v = the histories replayed on the library", ok)
+    # replay: every refutation witness must fail on the implementation exactly at its last step
+    for name, prefix, last, key in WITNESSES:
+        case = {"pool": P6, "ops": EX_BASE + prefix + [last]}
+        obs = observe(case)
+        clean_before = all(not o["naive"] for o in obs[:-1])
+        v = oracle(case, obs)
+        ctx.obligation("witness %s reproduces on the implementation (%s)" % (name, key),
+                       bool(clean_before and v and v[1] == key and obs[-1]["naive"]))
+    case = {"pool": P6, "ops": EX_BASE + EX_HISTORY}
+    obs = observe(case)
+    ctx.obligation("non-vacuity history of hist_ok_example runs on the implementation without violating the property",
+                   all(not o["naive"] for o in obs) and oracle(case, obs) is None)
+    return ok
+
+
 def fixed_cases():
-    P = ["A", "B", "C", "a", "b", "c"]
-    base = [["NewNs", False], ["NewNs", False], ["NewNs", True],
-            ["NewTaxon", 0, 0], ["NewTaxon", 0, 1], ["NewTaxon", 1, 3], ["NewTaxon", 1, 2],
-            ["NewTaxon", 2, 0], ["NewTaxon", 2, 3],
-            ["NewList", 0], ["NewList", 1], ["NewList", 2],
-            ["MkTree", 0, [0, 1]], ["MkTree", 1, [2, 3]], ["MkTree", 2, [4, 5]], ["MkTree", 2, [5, 4, 4]]]
+    P = P6
+    base = EX_BASE
     H = lambda *ops: {"pool": P, "ops": base + [list(o) for o in ops]}
+    yield {"pool": P, "ops": EX_BASE + EX_HISTORY}
+    for _name, prefix, last, _key in WITNESSES:
+        yield {"pool": P, "ops": EX_BASE + prefix + [last]}
     yield H(["Append", 0, 1, ["SMigrate", True]], ["Append", 0, 2, ["SMigrate", True]], ["Append", 1, 3, ["SMigrate", True]])
     yield H(["Append", 2, 0, ["SMigrate", True]], ["Append", 2, 1, ["SAdd"]], ["Pop", 2, -1], ["Pop", 2, 0], ["Pop", 2, 0])
     yield H(["Insert", 0, -1, 1, ["SMigrate", True]], ["Insert", 0, -1, 2, ["SMigrate", False]], ["Insert", 0, -9, 3, ["SAdd"]], ["Insert", 0, 9, 0, ["SBogus"]])
@@ -1008,20 +1111,46 @@ def fixed_cases():
     yield H(["ReadList", 0, "Newick", False, None, [[0, 2], [3, 1, 5]], 3], ["ReadList", 2, "Nexus", True, None, [[0, 3], [4]], 1],
             ["ReadList", 2, "Newick", False, None, [[0]], 0], ["ReadList", 0, "Newick", False, 1, [[0]], 0],
             ["NewTreeIn", 0, None, [2, 3]], ["NewTreeIn", 0, 1, []], ["SetItem", 0, 0, 1], ["SetItem", 0, 7, 2], ["Remove", 0, 1], ["Remove", 0, 1])
-    # findings (each history ends at the first violating step)
-    yield H(["Append", 1, 1, ["SMigrate", True]], ["Append", 0, 1, ["SMigrate", True]])
-    yield H(["Append", 1, 1, ["SMigrate", True]], ["GetSlice", 1, None, None], ["MigrateList", 3, 0, True])
-    yield H(["NewDs"], ["Attach", 0, 0], ["DsAdd", 0, ["ObjList", 1], False])
-    yield H(["NewDs"], ["DsAdd", 0, ["ObjList", 1], False], ["Attach", 0, 0])
-    yield H(["NewMat", 2], ["NewSeq", 0, 4], ["NewSeq", 0, 5], ["MigrateMat", 0, 0, True])
-    yield H(["NewMat", 2], ["NewSeq", 0, 4], ["NewSeq", 0, 5], ["NewDs"], ["DsAdd", 0, ["ObjMat", 0], False],
-            ["DsAdd", 0, ["ObjList", 0], True], ["Unify", 0, None, True])
-    yield H(["Append", 0, 0, ["SMigrate", True]], ["NewList", 0], ["Append", 3, 1, ["SMigrate", True]], ["PurgeList", 0])
     yield H(["NewDs"], ["DsAdd", 0, ["ObjList", 0], False], ["DsAdd", 0, ["ObjList", 1], False], ["Append", 1, 1, ["SMigrate", True]],
             ["Append", 0, 0, ["SMigrate", True]], ["Unify", 0, None, True], ["Unify", 0, 2, False], ["DsReadFasta", 0, None, [0, 4]],
             ["DsReadTrees", 0, "Nexus", True, None, [[1, 4]], 2], ["DsNewList", 0, 0], ["DsNewMat", 0, None], ["Detach", 0], ["DsNewList", 0, None])
     yield H(["NewMat", 0], ["NewSeq", 0, 0], ["SetRow", 0, ["KeyLabel", 4]], ["SetRow", 0, ["KeyIndex", -1]], ["SetRow", 0, ["KeyTaxon", 2]],
             ["ReconstructMat", 0, True], ["ReconstructMat", 0, False], ["UpdateMat", 0], ["MigrateMat", 0, 1, False], ["MigrateMat", 0, 2, True], ["PurgeMat", 0])
+
+
+def exhaustive_cases():
+    """every history of length <= 2 over a 48-op alphabet on top of two prepared situations"""
+    import itertools
+    prep = EX_BASE + [["Append", 0, 0, M1], ["Append", 1, 1, M1], ["NewMat", 2], ["NewSeq", 0, 4], ["NewDs"], ["DsAdd", 0, ["ObjList", 0], False]]
+    alpha = [
+        ["Append", 0, 2, M1], ["Append", 0, 3, ["SMigrate", False]], ["Append", 2, 0, ["SAdd"]], ["Append", 1, 3, ["SBogus"]],
+        ["Insert", 0, -1, 2, M1], ["Insert", 1, -5, 3, ["SAdd"]], ["Extend", 0, ["SrcList", 1]], ["Extend", 2, ["SrcTrees", [2, 3]]],
+        ["IAdd", 1, ["SrcList", 0]], ["IAdd", 0, ["SrcTrees", [3]]], ["Add", 0, ["SrcList", 1]], ["Add", 1, ["SrcTrees", [2]]],
+        ["SetItem", 0, 0, 2], ["SetItem", 1, -1, 3], ["SetItem", 2, 0, 2], ["SetSlice", 0, None, None, ["SrcList", 1]],
+        ["SetSlice", 1, 0, 1, ["SrcTrees", [2, 3]]], ["SetSlice", 0, 1, None, ["SrcList", 0]], ["GetSlice", 0, None, None], ["GetSlice", 1, 0, 1],
+        ["NewTreeIn", 0, None, [2, 4]], ["NewTreeIn", 1, 0, []], ["ReadList", 0, "Newick", False, None, [[0, 3], [4, 2]], 1],
+        ["ReadList", 2, "Nexus", True, None, [[3, 0, 1]], 2], ["ReadList", 2, "Newick", False, None, [[1]], 0], ["Pop", 0, -1], ["Pop", 2, 0],
+        ["Remove", 1, 1], ["Remove", 0, 2], ["MigrateList", 0, 1, True], ["MigrateList", 1, 2, False], ["ReconstructList", 0, True],
+        ["UpdateList", 1], ["PurgeList", 0], ["MigrateTree", 2, 0, True], ["MigrateTree", 1, 2, True], ["ReconstructTree", 3, True],
+        ["UpdateTree", 0], ["PurgeTree", 3], ["ArrayAdd", 0, 0], ["SetRow", 0, ["KeyLabel", 3]], ["MigrateMat", 0, 0, True],
+        ["MigrateMat", 0, 1, False], ["ReconstructMat", 0, True], ["Attach", 0, 0], ["DsAdd", 0, ["ObjList", 1], True],
+        ["DsAdd", 0, ["ObjMat", 0], False], ["DsReadTrees", 0, "Newick", False, None, [[0, 4]], 1], ["DsReadFasta", 0, None, [0, 5]],
+        ["Unify", 0, None, True], ["Unify", 0, 2, False], ["DsNewList", 0, 1], ["Detach", 0],
+    ]
+    for n in (1, 2):
+        for seq in itertools.product(alpha, repeat=n):
+            ops = prep[:]
+            w = World(P6)
+            for o in ops:
+                w.step(o)
+            good = True
+            for o in seq:
+                ops.append([x for x in o])
+                w.step(o)
+                w.sync()
+                if w.naive():
+                    break
+            yield {"pool": P6, "ops": ops}
 
 
 def search(ctx, budget_s):
@@ -1060,9 +1189,17 @@ def run(tier, seed, replay=None):
     ok = core.proof_stage(ctx, ["Props/C11.vo"])
     if not ok:
         core.broken_proof(ctx, search)
-    n = 330 if tier == "quick" else 5000
+    check_witnesses(ctx)
+    n = 400 if tier == "quick" else 6000
     cases = list(fixed_cases())
-    cases += [gen_case(ctx.rng, 14 if tier == "quick" else 30, hazard=0.12) for _ in range(n)]
+    cases += [gen_case(ctx.rng, 16 if tier == "quick" else 34, hazard=0.08 if tier == "quick" else 0.05) for _ in range(n)]
+    if tier == "thorough":
+        seen = set()
+        for c in exhaustive_cases():
+            k = core.canon(c["ops"])
+            if k not in seen:
+                seen.add(k)
+                cases.append(c)
     for c in cases:
         for o in c["ops"]:
             ctx.count(o[0])
@@ -1071,8 +1208,8 @@ def run(tier, seed, replay=None):
                     sample_fn=lambda c, o: {"ops": c["ops"][-6:], "pool": c["pool"], "last": o[-1]["dump"] if o else None})
     return ctx.finish(level="proof",
                       rule="operation histories generated online against the live library (set-up of 2-3 namespaces with "
-                           "overlapping / disjoint / case-variant labels, trees, lists, a matrix, a data set; then up to 14 "
-                           "(quick) / 30 (thorough) further container operations, ~12% of choices deliberately hazardous); "
-                           "plus 15 fixed histories for the call sites named in the property; non-trivial = >= 6 steps, >= 2 "
+                           "overlapping / disjoint / case-variant labels, trees, lists, a matrix, a data set; then 5..16 "
+                           "(quick) / 5..34 (thorough) further operations, 8% / 5% of the choices deliberately hazardous); "
+                           "plus 16 fixed histories (the witnesses of the `_refuted` theorems, the non-vacuity history, one history per group of call sites) for the call sites named in the property; thorough adds every history of length <= 2 over a 53-op alphabet on a prepared state (cut at the first violating step); non-trivial = >= 6 steps, >= 2 "
                            "namespaces and at least one step that re-mapped or cloned a tree / matrix into a namespace; "
                            "distinct by full case content")
